@@ -1,7 +1,8 @@
 package main
 
 // Property oracle for C12: judges the implementation alone (no Lean model involved).
-//   links            protodesc.NewFiles accepts the result
+//   links            protodesc.NewFiles accepts the result; every type needed to decode a custom option
+//                    value that survives is in the result (optvalues.go)
 //   includes         every included element is present
 //   excludes         no excluded element is present, nothing refers to one
 //   idempotent       filtering the result again (excludes restricted to names that still exist) changes nothing
@@ -18,11 +19,27 @@ import (
 	"github.com/bufbuild/buf/private/bufpkg/bufimage"
 	"github.com/bufbuild/protocompile/walk"
 	"github.com/bufbuild/verifharness/internal/hx"
+	"google.golang.org/protobuf/encoding/prototext"
 	"google.golang.org/protobuf/proto"
 	"google.golang.org/protobuf/reflect/protodesc"
 	"google.golang.org/protobuf/reflect/protoreflect"
 	"google.golang.org/protobuf/types/descriptorpb"
 )
+
+// recordFailure keeps at most failuresPerClass failures of one class in oracle.json (all are
+// counted): hx.Run keeps the first 200 failures only, and the recorded findings fire a few hundred
+// times per run - they must not crowd out a class that has not been seen before.
+const failuresPerClass = 6
+
+var failuresOfClass = map[string]int{}
+
+func recordFailure(run *hx.Run, f hx.OracleFailure) {
+	run.Count("oracle:" + f.Class)
+	failuresOfClass[f.Class]++
+	if failuresOfClass[f.Class] <= failuresPerClass {
+		run.Fail(f)
+	}
+}
 
 type located struct {
 	kind   string // msg enum svc method ext field oneof value
@@ -156,11 +173,10 @@ func isElem(l located) bool {
 	return l.kind == "msg" || l.kind == "enum" || l.kind == "svc" || l.kind == "method" || l.kind == "ext"
 }
 
-func oracle(run *hx.Run, image bufimage.Image, pre *prepared, in caseInput, out, input bufimage.Image, err error, replay string, orderDependent bool) {
+func oracle(run *hx.Run, image bufimage.Image, pre *prepared, in caseInput, out, input bufimage.Image, err error, replay string, orderDependent, mapOrderDependent bool) {
 	f := in.Filter
 	fail := func(class, what string) {
-		run.Fail(hx.OracleFailure{Class: class, What: what, Input: in, Replay: replay})
-		run.Count("oracle:" + class)
+		recordFailure(run, hx.OracleFailure{Class: class, What: what, Input: in, Replay: replay})
 	}
 	if err != nil && strings.HasPrefix(err.Error(), "panic") {
 		fail("filter-panics", err.Error())
@@ -276,6 +292,10 @@ func oracle(run *hx.Run, image bufimage.Image, pre *prepared, in caseInput, out,
 		linked = false
 		fail(classifyLinkFailure(out, got, excludeOnly, lerr.Error()), "result does not link: "+lerr.Error())
 	}
+	// --- links, at option-value level ---
+	if linked {
+		optionValueOracle(run, pre, image, out, f, ex, orig, excludeOnly, mapOrderDependent, fail)
+	}
 	// --- includes present ---
 	includesPresent := true
 	for _, n := range f.Include {
@@ -364,6 +384,21 @@ func oracle(run *hx.Run, image bufimage.Image, pre *prepared, in caseInput, out,
 				notIdem = "excluded-option-value-left-behind"
 			}
 		}
+		// an extension whose value type is excluded is dropped, but addElement recorded the import of
+		// its extendee's file BEFORE it looked at the value type: the first result keeps an import that
+		// nothing needs, the second application (the extension is gone) drops it
+		if notIdem == "not-idempotent" {
+			for n, l := range orig {
+				if l.kind != "ext" || ex.has(n) {
+					continue
+				}
+				fd := l.desc.(*descriptorpb.FieldDescriptorProto)
+				extendee, known := orig[trimDot(fd.GetExtendee())]
+				if known && extendee.file != l.file && !ex.has(trimDot(fd.GetExtendee())) && fd.TypeName != nil && ex.has(trimDot(fd.GetTypeName())) {
+					notIdem = "dropped-extension-leaves-extendee-import"
+				}
+			}
+		}
 		if len(g.Include) > 0 || len(g.Exclude) > 0 {
 			again, _, err2 := runFilter(out, g)
 			switch {
@@ -375,6 +410,9 @@ func oracle(run *hx.Run, image bufimage.Image, pre *prepared, in caseInput, out,
 				for i, fl := range out.Files() {
 					if fl.Path() != again.Files()[i].Path() || !proto.Equal(fl.FileDescriptorProto(), again.Files()[i].FileDescriptorProto()) {
 						fail(notIdem, "second application changes "+fl.Path())
+						if run.Only >= 0 {
+							fmt.Printf("---- first\n%s\n---- second\n%s\n", prototextNoSCI(fl.FileDescriptorProto()), prototextNoSCI(again.Files()[i].FileDescriptorProto()))
+						}
 						break
 					}
 				}
@@ -649,4 +687,10 @@ func extensionsOrderIndependent(image bufimage.Image, pre *prepared) bool {
 		}
 	}
 	return true
+}
+
+func prototextNoSCI(fd *descriptorpb.FileDescriptorProto) string {
+	c := proto.Clone(fd).(*descriptorpb.FileDescriptorProto)
+	c.SourceCodeInfo = nil
+	return prototext.MarshalOptions{Multiline: true}.Format(c)
 }
